@@ -180,19 +180,6 @@ def sbml_tables(repo):
                             ("sb_zero_bound_id", "ZERO_BOUND_ID"), ("sb_minus_inf_id", "BOUND_MINUS_INF"),
                             ("sb_plus_inf_id", "BOUND_PLUS_INF")]:
         out.append("Definition %s : list Z := %s." % (coqname, coq_string(_str_const(tree, pyname))))
-    # _create_bound: the order of the comparisons
-    cb = find_def(tree, "_create_bound")
-    tests = []
-    for node in ast.walk(cb):
-        if isinstance(node, ast.If) and isinstance(node.test, ast.Compare) and ast.unparse(node.test.left) == "value" \
-                and isinstance(node.body[0], ast.Return):
-            tests.append((ast.unparse(node.test.comparators[0]), ast.unparse(node.body[0].value)))
-    want = [("config.lower_bound", "LOWER_BOUND_ID"), ("0", "ZERO_BOUND_ID"), ("config.upper_bound", "UPPER_BOUND_ID"),
-            ("-float('Inf')", "BOUND_MINUS_INF"), ("float('Inf')", "BOUND_PLUS_INF")]
-    if tests != want:
-        raise Abort("_create_bound: comparison chain not recognised: %r" % (tests,))
-    if "pid = rid + '_' + bound_type" not in ast.unparse(cb):
-        raise Abort("_create_bound: parameter id not recognised")
     # how the reader creates the reaction before assigning the two bounds one after the other
     src = ast.unparse(find_def(tree, "_sbml_to_model"))
     plain = "cobra_reaction = Reaction(rid)" in src
